@@ -17,6 +17,8 @@ mod common;
 mod io_faults;
 #[path = "../../scen/optgen.rs"]
 mod optgen;
+#[path = "../../scen/rt.rs"]
+mod rt;
 
 struct St;
 
@@ -34,14 +36,21 @@ impl Engine for St {
     }
 
     fn properties(&self) -> Vec<&'static str> {
-        vec!["C05"]
+        vec!["C01", "C02", "C05", "C07", "C12", "C13", "C16", "C18"]
     }
 
     fn plan(&self, prop: &str, tier: &str) -> Vec<(String, u64)> {
         let t = tier == "thorough";
         let p = |s: &str, q: u64, th: u64| (s.to_string(), if t { th } else { q });
         match prop {
-            "C05" => vec![p("io.trunc", 1500, 20000), p("io.read_err", 1500, 20000), p("io.read_benign", 4000, 150000), p("io.sink_err", 1500, 20000), p("io.sink_benign", 4000, 150000)],
+            "C05" => vec![p("io.trunc", 5000, 60000), p("io.read_err", 5000, 60000), p("io.read_benign", 15000, 500000), p("io.sink_err", 5000, 60000), p("io.sink_benign", 15000, 500000)],
+            "C01" => vec![p("rt.codec", 40000, 1_500_000), p("rt.codec.bias", 10000, 400_000), p("rt.codec.big", 300, 8000)],
+            "C02" => vec![p("rt.container", 40000, 1_500_000), p("rt.container.bias", 8000, 300_000), p("rt.container.big", 200, 6000)],
+            "C07" => vec![p("history.write", 12000, 300_000), p("history.read", 12000, 300_000)],
+            "C12" => vec![p("concat.xz", 40000, 1_000_000), p("concat.lzip", 20000, 500_000)],
+            "C13" => vec![p("determ.repeat", 12000, 400_000), p("determ.partition", 12000, 400_000)],
+            "C16" => vec![p("exact", 80000, 3_000_000)],
+            "C18" => vec![p("sizes", 40000, 1_500_000)],
             _ => vec![],
         }
     }
@@ -50,6 +59,7 @@ impl Engine for St {
         let tier = if std::env::var("VERIF_TIER").map(|t| t == "thorough").unwrap_or(false) { "thorough" } else { "quick" };
         let mut c = match prop {
             "C05" => io_faults::gen(scen, k, seed, tier),
+            "C01" | "C02" | "C07" | "C12" | "C13" | "C16" | "C18" => rt::gen(prop, scen, k, seed, tier),
             _ => Case::default(),
         };
         c.prop = prop.to_string();
@@ -63,6 +73,7 @@ impl Engine for St {
         let _ = tier_of(case);
         match case.scen.split('.').next().unwrap_or("") {
             "io" => io_faults::exec(case, keep_log),
+            "rt" | "history" | "determ" | "exact" | "sizes" | "concat" => rt::exec(case, keep_log),
             _ => RunResult::default(),
         }
     }
@@ -79,11 +90,62 @@ impl Engine for St {
                 stubs,
                 exhaustive_part: Some("every truncation offset and every call index for streams within the per-run point budget (512 / 96 / 64 quick; 8192 / 100000 / 4000 thorough)".into()),
             },
+            "C01" | "C02" => PropMeta {
+                level: "exploration",
+                rule: "one run = (format/framing, option vector drawn from the documented ranges, input class and length biased to dictionary/chunk boundaries, write history with flushes and empty writes, read buffer sizes, optional benign short/Interrupted policy on sink and source) -> encode through SimSink, decode through SimSource, compare. *.bias runs encode twice, once with the match finder positions starting k bytes below 2^31-1 (k within the input), and require identical compressed bytes. *.big runs use 0.1-6 MB inputs. Non-trivial: non-empty input (bias: renormalisation point inside the input). distinct = distinct event-log digests (I/O call trace, stream hash, decoded hash).".into(),
+                assumptions: vec!["in-range options only (out-of-range is C19)".into(), "position bias is semantically a prefix of data entirely outside the window".into()],
+                real, stubs, exhaustive_part: None,
+            },
+            "C07" => PropMeta {
+                level: "exploration",
+                rule: "one run = one (format, options, input); history.write encodes it under 5 (quick) / 12 (thorough) write histories: single write, one byte per write, huge-then-single-bytes, random partitions with flushes and empty writes; history.read decodes one stream under as many buffer-size sequences incl. zero-length buffers at random points. Each history is one evaluation; distinct = histories executed (each history of a run differs by construction).".into(),
+                assumptions: vec!["the stand-alone BCJWriter cannot be correct across split writes without an API change (known finding KF-BCJWriter-split-writes)".into()],
+                real, stubs, exhaustive_part: None,
+            },
+            "C12" => PropMeta {
+                level: "exploration",
+                rule: "one run = 1-5 XZ streams (1-8 LZIP members), each with its own options/check/filters and a random slice (20% empty) of a text buffer, joined with stream padding drawn from {0,0,4,8,12,16}; in 25% of XZ runs one gap gets padding from {1,2,3,5,6,7} (must be rejected). multi-stream on in 80% of runs (off: first stream only). Benign short/Interrupted reads in half of the runs. Non-trivial: more than one part.".into(),
+                assumptions: vec!["each part is first checked to round-trip on its own; otherwise the run is skipped (C02 reports it)".into()],
+                real, stubs, exhaustive_part: None,
+            },
+            "C13" => PropMeta {
+                level: "exploration",
+                rule: "determ.repeat: same case encoded 3 times with the allocator filling fresh non-zeroed memory with 0xAA / 0x55 / 0xFF; determ.partition: 4 write partitions without flush (chunk/block size unset for LZMA2/XZ). Output bytes must be identical. The multi-threaded part (schedules, worker counts; output equals the concatenation of single-threaded unit encodings) runs in lzsim-mt scenario mt.determ and is merged into this evidence file. Non-trivial: non-empty input.".into(),
+                assumptions: vec!["alloc_zeroed memory is not junk-filled (the allocator contract zeroes it)".into()],
+                real, stubs, exhaustive_part: None,
+            },
+            "C16" => PropMeta {
+                level: "exploration",
+                rule: "one run = valid .lzma (header+marker, header+declared size, raw+marker, raw+size given to the reader), LZMA2 or single-stream XZ, followed by nothing / zeros / a second valid stream / random bytes; read with random buffer sizes and (40%) short/Interrupted reads until Ok(0); the bytes SimSource handed out must equal the stream length; for a following stream a second reader on into_inner() must decode it. Non-trivial: trailer not empty.".into(),
+                assumptions: vec!["a raw stream with marker whose size is ALSO given to the reader is outside the property's wording and not generated".into()],
+                real, stubs, exhaustive_part: None,
+            },
+            "C18" => PropMeta {
+                level: "exploration",
+                rule: "one run = XZ or LZIP with a block/member size from {1, dict, dict+1, dict+777, 3*dict, len/3} and a write history (one huge write, thousands of tiny writes, random), sink parsed with the harness's own XZ/LZIP parsers: every record <= max(size, dict), records sum to the input; or .lzma with an expected size off by {0,-1,+1,-len,+1000}. MT unit sizes and chunk/member counts are checked in C08 (lzsim-mt). Non-trivial: input longer than the limit.".into(),
+                assumptions: vec!["a file the parser cannot walk is skipped here (C02/C03 report malformed containers)".into()],
+                real, stubs, exhaustive_part: None,
+            },
             _ => PropMeta { level: "exploration", rule: String::new(), assumptions: vec![], real, stubs, exhaustive_part: None },
         }
     }
 }
 
 fn main() {
+    let args: Vec<String> = std::env::args().collect();
+    if args.get(1).map(|s| s.as_str()) == Some("dump") && args.len() >= 4 {
+        // debugging aid: encode the case of a replay file and write the compressed bytes out
+        simcore::run::install_panic_hook();
+        let rf: simcore::case::ReplayFile = serde_json::from_str(&std::fs::read_to_string(&args[2]).unwrap()).unwrap();
+        let data = rf.case.input.gen();
+        match rt::encode_sim(&rf.case, &data) {
+            Ok(e) => {
+                std::fs::write(&args[3], &e.bytes).unwrap();
+                println!("{} bytes in, {} bytes out", data.len(), e.bytes.len());
+            }
+            Err(v) => println!("encode failed: {v:?}"),
+        }
+        return;
+    }
     simcore::orch::main(&St)
 }
